@@ -125,6 +125,7 @@ func init() {
 		addSpec(&propSpec{ID: id, Level: "exploration", QuickRuns: 1600, ThorRuns: 40000, QuickSecs: 75, ThorSecs: 900})
 	}
 	addSpec(&propSpec{ID: "C04", Level: "exploration", QuickRuns: 1600, ThorRuns: 40000, QuickSecs: 75, ThorSecs: 900})
+	addSpec(&propSpec{ID: "C11", Level: "exploration", QuickRuns: 800, ThorRuns: 40000, QuickSecs: 75, ThorSecs: 900})
 	addSpec(&propSpec{ID: "C12", Level: "exploration", QuickRuns: 1600, ThorRuns: 40000, QuickSecs: 75, ThorSecs: 900})
 	addSpec(&propSpec{ID: "C07", Level: "exploration", QuickRuns: 1200, ThorRuns: 30000, QuickSecs: 75, ThorSecs: 900})
 	addSpec(&propSpec{ID: "C09", Level: "exploration", Race: true, QuickRuns: 640, ThorRuns: 16000, QuickSecs: 90, ThorSecs: 1200})
@@ -197,6 +198,7 @@ type driver struct {
 	keep       bool
 	noEvidence bool
 	replayDir  string
+	lastOutput string
 	scratch    string
 	gen        *genOut
 	start      time.Time
@@ -313,6 +315,7 @@ func (d *driver) runProc(bin string, j *job, idx int, timeout time.Duration, rac
 		<-done
 		return readResults(j.Out), fmt.Sprintf("watchdog: process %d exceeded %v\n%s", idx, timeout, tail(out.String(), 30))
 	}
+	d.lastOutput = out.String()
 	res := readResults(j.Out)
 	if werr != nil && !(race && (strings.Contains(werr.Error(), "exit status 66") || strings.Contains(out.String(), "race detected during execution of test"))) {
 		// the test binary failed outside a run (a crash of the process)
@@ -380,6 +383,9 @@ func (d *driver) replay(spec *propSpec, file string) int {
 	res, perr := d.runProc(bin, j, 0, 10*time.Minute, spec.Race)
 	if perr != "" && len(res) == 0 {
 		return d.infra("%s", perr)
+	}
+	if os.Getenv("VF_LOG") != "" {
+		fmt.Println(d.lastOutput)
 	}
 	rcode := 0
 	for _, r := range res {
